@@ -56,6 +56,38 @@ func init() {
 		}
 		addFC(v, "limb-pattern")
 	}
+	// limbs whose low (resp. high) half is empty: comparisons, folds or conversions that look
+	// at only part of a limb cannot tell these from zero
+	hi := []uint64{0, 1 << 32, 1 << 50, (1<<19 - 1) << 32}
+	lo := []uint64{0, 1, 1 << 31, 1<<32 - 1}
+	for a := 0; a < 1024; a++ {
+		x := a
+		vh, vl := new(big.Int), new(big.Int)
+		for i := 0; i < 5; i++ {
+			vh.Add(vh, new(big.Int).Lsh(new(big.Int).SetUint64(hi[x%4]), uint(51*i)))
+			vl.Add(vl, new(big.Int).Lsh(new(big.Int).SetUint64(lo[x%4]), uint(51*i)))
+			x /= 4
+		}
+		addFC(vh, "limb-high-halves")
+		addFC(vl, "limb-low-halves")
+	}
+}
+
+// StructuredDelta draws a value meant to be the DIFFERENCE of two field values that some
+// operation has to tell apart: a power of two, a limb pattern, a half-empty limb pattern.
+func (r *Rand) StructuredDelta() *big.Int {
+	switch r.Intn(3) {
+	case 0:
+		return pow2(r.Intn(255))
+	case 1:
+		return fieldClasses[60+r.Intn(len(fieldClasses)-60)].V
+	default:
+		d := fieldClasses[len(fieldClasses)-1-r.Intn(2048)].V
+		if d.Sign() == 0 {
+			return big.NewInt(1 << 32)
+		}
+		return d
+	}
 }
 
 // FieldClasses returns the fixed structured value list.
